@@ -1,10 +1,195 @@
-"""Sanitizer subsets (Miri / valgrind memcheck / ASan) for the properties that list them."""
+"""Sanitizer subsets for the properties that list them (C12): the reduced workload `SANIT`
+(monitor/src/props/sanit.rs) is executed under
+
+  * Miri  (cargo +nightly miri run, one single-threaded process per shard, 16 at a time) - the UB
+    interpreter: alignment / out-of-bounds / provenance / invalid values on the `align_to` paths,
+    plus integer-overflow and debug assertions (dev profile);
+  * valgrind memcheck on the optimised `rel` binary - uninitialised or out-of-bounds accesses in
+    the code users ship.
+
+A sanitizer report is a violation (with the tool output as the replay record); a tool that cannot
+start, a build failure or a timeout is *inconclusive*, never a violation.
+"""
+import json
+import os
+import subprocess
+import time
+from concurrent.futures import ThreadPoolExecutor
+
+REPO = "/repo"
+
+
+def _hooks():
+    try:
+        return "verif-hooks" in open(os.path.join(REPO, "Cargo.toml")).read()
+    except OSError:
+        return False
+
+
+def _miri_cmd(shard, nshards, tier, seed):
+    cmd = ["cargo", "+nightly", "miri", "run", "--target-dir", "target-miri", "--bin", "monitor"]
+    if not _hooks():
+        cmd.append("--no-default-features")
+    cmd += ["--", "run", "--property", "SANIT", "--tier", tier, "--seed", str(seed), "--shard", "%d/%d" % (shard, nshards), "--build", "miri"]
+    return cmd
+
+
+def _run(cmd, mon, env, timeout):
+    t0 = time.time()
+    try:
+        p = subprocess.run(cmd, cwd=mon, env=env, stdout=subprocess.PIPE, stderr=subprocess.PIPE, text=True, timeout=timeout)
+        return p.returncode, p.stdout, p.stderr, time.time() - t0, False
+    except subprocess.TimeoutExpired as e:
+        return None, e.stdout or "", e.stderr or "", time.time() - t0, True
+
+
+def _parse(stdout):
+    try:
+        i = stdout.index("{")
+        return json.loads(stdout[i:])
+    except (ValueError, json.JSONDecodeError):
+        return None
+
+
+def run_miri(tier, seed, mon, env, log):
+    """quick: 16 of 96 shards of the tiny subset (rotating with the seed); thorough: all 32 of 32."""
+    if tier == "quick":
+        nshards, first = 96, (seed * 16) % 96
+        shards = [(first + i) % nshards for i in range(16)]
+        timeout = 900
+    else:
+        nshards = 32
+        shards = list(range(32))
+        timeout = 3600
+    env = dict(env)
+    env.pop("RUSTFLAGS", None)
+    # build once (first shard), then the rest in parallel
+    results = []
+    rc, out, err, dt, to = _run(_miri_cmd(shards[0], nshards, "tiny", seed), mon, env, timeout + 600)
+    results.append((shards[0], rc, out, err, dt, to))
+    if rc is None or (rc != 0 and "error: could not compile" in err) or "is not installed" in err:
+        return results, nshards
+    with ThreadPoolExecutor(16) as ex:
+        futs = [(s, ex.submit(_run, _miri_cmd(s, nshards, "tiny", seed), mon, env, timeout)) for s in shards[1:]]
+        for s, f in futs:
+            rc, out, err, dt, to = f.result()
+            results.append((s, rc, out, err, dt, to))
+    return results, nshards
+
+
+def run_memcheck(tier, seed, mon, env, log):
+    binary = os.path.join(mon, "target-rel", "rel", "monitor")
+    if not os.path.exists(binary):
+        return [(0, None, "", "rel binary missing", 0.0, False)], 1
+    sub_tier = "tiny" if tier == "quick" else "quick"
+    nshards = 4 if tier == "quick" else 16
+    timeout = 900 if tier == "quick" else 5400
+
+    def one(s):
+        cmd = ["valgrind", "--error-exitcode=9", "--quiet", "--num-callers=30", binary, "run", "--property", "SANIT", "--tier", sub_tier,
+               "--seed", str(seed), "--shard", "%d/%d" % (s, nshards), "--build", "memcheck"]
+        rc, out, err, dt, to = _run(cmd, mon, env, timeout)
+        return (s, rc, out, err, dt, to)
+
+    with ThreadPoolExecutor(nshards) as ex:
+        results = list(ex.map(one, range(nshards)))
+    return results, nshards
+
+
+def _first_error_lines(err, tool):
+    lines = [l for l in err.splitlines() if l.strip()]
+    if tool == "miri":
+        for i, l in enumerate(lines):
+            if l.startswith("error"):
+                return lines[i:i + 25]
+    else:
+        for i, l in enumerate(lines):
+            if l.startswith("==") and ("Invalid" in l or "uninitialised" in l or "Mismatched" in l or "definitely lost" in l or "Process terminating" in l):
+                return lines[i:i + 25]
+    return lines[-25:]
 
 
 def run(prop, tier, seed, info, mon, env, log):
-    return [], [], []
+    records, violations, inconclusive = [], [], []
+    plans = info.get("sanitizers", [])
+    with ThreadPoolExecutor(2) as ex:
+        futs = {}
+        if "miri" in plans:
+            futs["miri"] = ex.submit(run_miri, tier, seed, mon, env, log)
+        if "memcheck" in plans:
+            futs["memcheck"] = ex.submit(run_memcheck, tier, seed, mon, env, log)
+        done = {k: f.result() for k, f in futs.items()}
+    for tool, (results, nshards) in done.items():
+        ops = calls = reports = 0
+        wall = 0.0
+        shards_ok = 0
+        for (s, rc, out, err, dt, timed_out) in results:
+            wall = max(wall, dt)
+            data = _parse(out)
+            if timed_out:
+                inconclusive.append("%s shard %d/%d: watchdog fired after %.0fs" % (tool, s, nshards, dt))
+                continue
+            if rc == 0 and data is not None:
+                shards_ok += 1
+                ops += data.get("evaluations", 0)
+                calls += data.get("observer_calls", 0)
+                for v in data.get("violations", []):
+                    violations.append({"property": prop, "tool": tool, "sig": "%s|%s" % (tool, v["sig"]), "case": v["case"], "detail": v["detail"],
+                                       "replay": "monitor replay --property SANIT --case '<case>' under " + tool})
+                continue
+            is_report = (tool == "miri" and ("Undefined Behavior" in err or "error: unsupported operation" in err or "memory leaked" in err or "error: abnormal termination" in err)) or \
+                        (tool == "memcheck" and rc == 9)
+            if is_report:
+                reports += 1
+                head = _first_error_lines(err, tool)
+                first = next((l for l in head if "src/" in l and "/repo/" in l), head[0] if head else "?")
+                violations.append({"property": prop, "tool": tool, "sig": "%s|report|%s" % (tool, first.strip()[:160]),
+                                   "shard": "%d/%d" % (s, nshards), "tier": tier, "seed": seed, "output": head,
+                                   "replay": "re-run: ./check %s %s (VERIF_SEED=%d); shard %d/%d of the SANIT subset under %s" % (prop, tier, seed, s, nshards, tool)})
+            elif rc == 3:
+                inconclusive.append("%s shard %d/%d: harness error: %s" % (tool, s, nshards, err[-400:]))
+            else:
+                inconclusive.append("%s shard %d/%d could not run (exit %s): %s" % (tool, s, nshards, rc, err[-600:]))
+        log("[sanitizer %s] shards ok %d/%d, ops %d, reports %d, wall %.0fs" % (tool, shards_ok, len(results), ops, reports, wall))
+        records.append({"tool": tool, "shards_run": len(results), "shards_of": nshards, "shards_clean": shards_ok, "ops": ops,
+                        "observer_calls": calls, "reports": reports, "wall_s": round(wall, 1),
+                        "workload": "SANIT subset (conversions, comparisons, splices, operators, division, hash, integer conversions, slice primitives via hooks, histories)"})
+    return records, violations, inconclusive
 
 
 def replay(rec, mon, env, log):
-    print("sanitizer replays re-run the whole subset: ./check %s quick" % rec.get("property"))
-    return 3
+    """Re-run the recorded shard (or the recorded case) under the recorded tool."""
+    tool = rec.get("tool")
+    print("sanitizer finding recorded by tool %s:" % tool)
+    for l in rec.get("output", []):
+        print("   " + l)
+    if rec.get("case"):
+        if tool == "miri":
+            cmd = ["cargo", "+nightly", "miri", "run", "--target-dir", "target-miri", "--bin", "monitor"] + ([] if _hooks() else ["--no-default-features"]) + \
+                  ["--", "replay", "--property", "SANIT", "--build", "miri", "--case", rec["case"]]
+        else:
+            cmd = ["valgrind", "--error-exitcode=9", "--quiet", os.path.join(mon, "target-rel", "rel", "monitor"), "replay", "--property", "SANIT",
+                   "--build", "memcheck", "--case", rec["case"]]
+    elif rec.get("shard"):
+        s, n = [int(x) for x in rec["shard"].split("/")]
+        sub_tier = "tiny" if (tool == "miri" or rec.get("tier") == "quick") else "quick"
+        if tool == "miri":
+            cmd = _miri_cmd(s, n, "tiny", rec.get("seed", 1))
+        else:
+            cmd = ["valgrind", "--error-exitcode=9", "--quiet", os.path.join(mon, "target-rel", "rel", "monitor"), "run", "--property", "SANIT",
+                   "--tier", sub_tier, "--seed", str(rec.get("seed", 1)), "--shard", "%d/%d" % (s, n), "--build", "memcheck"]
+    else:
+        print("record has neither case nor shard")
+        return 3
+    rc, out, err, dt, to = _run(cmd, mon, env, 3600)
+    if to or rc is None:
+        print("INCONCLUSIVE: timeout")
+        return 3
+    data = _parse(out)
+    if rc == 0 and data is not None and not data.get("violations"):
+        print("no report on replay")
+        return 0
+    print("STILL FAILS (exit %s)" % rc)
+    for l in _first_error_lines(err, tool):
+        print("   " + l)
+    return 1
